@@ -1046,6 +1046,42 @@ func ruleBlock(c *Ctx) {
 		}
 	}
 	c.census("C-BLOCK", "calls that wait for an external process", nWait, 1)
+	// a request handler that waits for the server's own goroutines (WaitGroup.Wait, a receive from a done channel
+	// is not modelled) waits, transitively, for whatever they wait for: if one of them awaits a client response,
+	// the dispatch loop - the only reader of responses - is the one that is blocked
+	awaitingRoot := ""
+	for _, root := range ci.goRoots {
+		for f := range Reach(ci.g, []*ssa.Function{root}, true) {
+			for _, b := range f.Blocks {
+				for _, ins := range b.Instrs {
+					if call, ok := ins.(ssa.CallInstruction); ok && call.Common().IsInvoke() && aw[call.Common().Method.Name()] &&
+						strings.HasSuffix(types.TypeString(call.Common().Value.Type(), nil), "protocol.Client") {
+						awaitingRoot = funcName(root)
+					}
+				}
+			}
+		}
+	}
+	for _, f := range ci.funcs {
+		if !ci.reachH[f] {
+			continue
+		}
+		for _, b := range f.Blocks {
+			for _, ins := range b.Instrs {
+				call, ok := ins.(ssa.CallInstruction)
+				if !ok {
+					continue
+				}
+				cal := call.Common().StaticCallee()
+				if cal == nil || cal.Name() != "Wait" || cal.Signature.Recv() == nil || !strings.HasSuffix(types.TypeString(cal.Signature.Recv().Type(), nil), "sync.WaitGroup") {
+					continue
+				}
+				c.check(awaitingRoot == "", "C-BLOCK", funcName(f), "handler waits for background goroutines", ins.Pos(),
+					"no goroutine the server starts awaits a client response",
+					"a request handler waits (sync.WaitGroup.Wait) for the server's goroutines, and "+awaitingRoot+" awaits a response from the client: the response can only be read by the dispatch loop that is blocked in this handler - the server hangs")
+			}
+		}
+	}
 }
 
 // perDocumentCounter: map from a document URI to an integer.
